@@ -205,7 +205,8 @@ func (m *Muxer) AddChunk(id ChunkID, data []byte) error {
 	return nil
 }
 
-// isAnimated returns true if the muxer has multiple frames or any frame has a non-zero duration.
+// isAnimated returns true if the muxer has multiple frames, any frame has a
+// non-zero duration, or the single frame does not cover its canvas exactly.
 func (m *Muxer) isAnimated() bool {
 	if len(m.frames) > 1 {
 		return true
@@ -213,6 +214,18 @@ func (m *Muxer) isAnimated() bool {
 	for _, f := range m.frames {
 		if f.opts.Duration > 0 {
 			return true
+		}
+	}
+	// A single frame placed at an offset, or on an explicit canvas of another
+	// size, cannot be stored as a still image: the still layouts have no place
+	// for a frame rectangle, and a VP8X canvas that differs from the image is
+	// invalid. A one-frame animation (ANIM + ANMF) can express it.
+	if len(m.frames) == 1 {
+		f := m.frames[0]
+		if fw, fh := frameDimensions(f.data); fw > 0 && fh > 0 {
+			if cw, ch := m.canvasSize(); cw != fw || ch != fh {
+				return true
+			}
 		}
 	}
 	return false
